@@ -54,13 +54,26 @@ two per record, nested, in arrays of structures; packed / aligned, compiled / in
 cs.<base>[k] with a static negative k.  A negative count is an EMPTY array: at every start offset, for every stream kind x call form and
 buffer kind x call form, with different trailing bytes, the value and the consumed count are those of the reference parser; three
 records back to back and T[k] end where the reference says; interpreted cases also go to the Lean model.
+Real file objects (harness/v9_c09.py:run_files, run_toend): the "file-like input" of the property as every kind of binary file object instead
+of io.BytesIO - open(path, 'rb') / 'r+b' / 'a+b' / buffering=0 / buffering=k, os.fdopen, io.BufferedReader / BufferedRandom over FileIO, over
+BytesIO and over a raw stream with short reads, mmap (file-backed, anonymous), tempfile.TemporaryFile / NamedTemporaryFile /
+SpooledTemporaryFile (in memory, rolled over), gzip / bz2 / lzma files, a zip member - brought to the start offset p by seek, by reading, from
+the end, by a relative seek or by rewriting the prefix, under T(s), T.read(s), cs.read(name, s).  run_files: every type family of the probes
+above as the subject (random definition trees, top-level unions, long runs incl. the unnamed cs.<base>[None] / [n], records with a dynamic
+tail, scalars / enums / arrays / typedefs / small aggregates).  run_toend: to-end-of-stream arrays ET d[EOF] (char, wchar, integers, floats,
+enums, LEB128, structures, inner arrays, rows of strings; 0 .. 9000 bytes) as the last member, behind expression-sized and null-terminated
+arrays, nested, two per record, as typedef and as cs.<base>[Expression(cs, "EOF")].  The value and encoded size of the bytes from p onward
+on their own (reference parser / the library's parse of plain bytes) must come out of every stream kind, tell() and the next raw read must
+agree that the stream is at p + encoded size, three records back to back and T[k] on one real stream end where they should, and
+memoryview(mmap)[p:] / T.reads(mmap) behave like bytes.  (Kinds that cannot be positioned beyond their last byte - mmap, compressed files -
+are not used where an aligned record's tail alignment points there; see the module docstring.)
 """
 from __future__ import annotations
 
 import io
 import itertools
 
-from .. import defs, impl, refimpl, s3_c09, u2_c09, v4_c09, v5_c09, v8_c09
+from .. import defs, impl, refimpl, s3_c09, u2_c09, v4_c09, v5_c09, v8_c09, v9_c09
 from ..common import Result, mkrng
 from ..structprops import Engine, load, real_parse, rand_bytes, has_eof
 
@@ -330,6 +343,17 @@ def run(env) -> Result:
                 "{packed, aligned} x {interpreted, compiled}, and unnamed cs.<base>[negative k]: a negative count is an empty array - start "
                 "offsets x different trailing bytes x stream kinds x call forms give the reference value and leave the stream at p + the "
                 "reference encoded size; buffer kinds x call forms; three records back to back; T[k]; the Lean model. "
+                "Real file objects as the stream: open(path) in rb / r+b / a+b / unbuffered / small-buffer modes, os.fdopen, BufferedReader / "
+                "BufferedRandom over FileIO, BytesIO and a short-read raw stream, mmap (file, anonymous), TemporaryFile / NamedTemporaryFile / "
+                "SpooledTemporaryFile, gzip / bz2 / lzma files, zip members (+ BytesIO and the minimal file object as controls) x positioned at "
+                "p by seek / read / seek from the end / relative seek / rewriting the prefix x T(s) / T.read(s) / cs.read(name, s) x subjects "
+                "{random definition trees, top-level unions, long runs and unnamed array types, dynamic-tail records, scalars / enums / arrays / "
+                "typedefs / small aggregates} and, as a family of its own, to-end-of-stream arrays ET d[EOF] (ET = char, wchar, ints, floats, "
+                "enums, LEB128, structures, inner arrays, strings; 0..9000 bytes; last member / behind expression-sized or null-terminated "
+                "arrays / nested / two per record / typedef / cs.<base>[Expression(cs,'EOF')]) x {<,>} x {packed, aligned} x {interpreted, "
+                "compiled}: value and encoded size of the bytes from p onward on their own (reference parser; the library's parse of plain "
+                "bytes for random inputs), tell() and the next raw read agree on p + encoded size, three records back to back and T[k] on one "
+                "real stream, memoryview(mmap)[p:] and T.reads(mmap) like bytes; interpreted structures also against the Lean model. "
                 "distinct = (definition, config, input, offset, kind); non-trivial = offset > 0 or a non-bytes input kind")
     eng = Engine(env, res, "C09")
     rnd = mkrng(env["seed"], "c09")
@@ -367,6 +391,8 @@ def run(env) -> Result:
     v4_c09.run_mixed(env, eng, res, mkrng(env["seed"], "c09-mixed"))
     v5_c09.run_subclass(env, eng, res, mkrng(env["seed"], "c09-subclass"))
     v8_c09.run_sentinel(env, eng, res, mkrng(env["seed"], "c09-sentinel"))
+    v9_c09.run_files(env, eng, res, mkrng(env["seed"], "c09-files"))
+    v9_c09.run_toend(env, eng, res, mkrng(env["seed"], "c09-toend"))
     return res
 
 
